@@ -219,15 +219,16 @@ class RF24:
         """Open a data pipe for TX transmissions."""
         if len(address) > 5:
             raise ValueError("address length cannot exceed 5")
+        for i, val in enumerate(address):
+            self._tx_address[i] = val
         if self._aa & 1:
-            for i, val in enumerate(address):
+            # the ACK only matches if pipe 0 holds the whole resulting TX address
+            for i, val in enumerate(self._tx_address):
                 self._pipes[0][i] = val  # type: ignore[assignment, index]
-            self._reg_write_bytes(RX_ADDR_P0, address)
+            self._reg_write_bytes(RX_ADDR_P0, self._tx_address)
             if not self._config & 1 and not self._open_pipes & 1:
                 self._open_pipes |= 1  # pipe 0 must be open to receive the ACK
                 self._reg_write(OPEN_PIPES, self._open_pipes)
-        for i, val in enumerate(address):
-            self._tx_address[i] = val
         self._reg_write_bytes(TX_ADDRESS, address)
 
     def close_rx_pipe(self, pipe_number: int) -> None:
